@@ -108,5 +108,145 @@ func TestVerifReplay(t *testing.T) {
 '''
 
 
+RETRIEVE = r'''package retrieval_test
+
+import (
+	"context"
+	"io"
+	"sync"
+	"testing"
+	"time"
+
+	accmock "github.com/gauss-project/aurorafs/pkg/accounting/mock"
+	"github.com/gauss-project/aurorafs/pkg/boson"
+	"github.com/gauss-project/aurorafs/pkg/cac"
+	"github.com/gauss-project/aurorafs/pkg/chunkinfo"
+	"github.com/gauss-project/aurorafs/pkg/logging"
+	"github.com/gauss-project/aurorafs/pkg/p2p"
+	"github.com/gauss-project/aurorafs/pkg/p2p/protobuf"
+	"github.com/gauss-project/aurorafs/pkg/p2p/streamtest"
+	"github.com/gauss-project/aurorafs/pkg/retrieval"
+	"github.com/gauss-project/aurorafs/pkg/retrieval/pb"
+	rmock "github.com/gauss-project/aurorafs/pkg/routetab/mock"
+	"github.com/gauss-project/aurorafs/pkg/sctx"
+	"github.com/gauss-project/aurorafs/pkg/storage"
+	storemock "github.com/gauss-project/aurorafs/pkg/storage/mock"
+	"github.com/gauss-project/aurorafs/pkg/subscribe"
+)
+
+// only the call made by retrieveChunk is needed
+type chunkInfoStub struct{ chunkinfo.Interface }
+
+func (chunkInfoStub) OnChunkRetrieved(_, _, _ boson.Address) error { return nil }
+
+func mustChunk(t *testing.T, payload string) boson.Chunk {
+	t.Helper()
+	c, err := cac.New([]byte(payload))
+	if err != nil {
+		t.Fatal(err)
+	}
+	return c
+}
+
+// An HONEST remote peer serves two chunks of the same file. The local node downloads the
+// file with explicit targets (the `targets` parameter of the download API ends up in the
+// context via sctx.SetTargets) and asks for both chunks concurrently, as the joiner does.
+// Every RetrieveChunk result must be a valid chunk for the address that was asked for.
+func TestVerifReplay(t *testing.T) {
+	var (
+		logger     = logging.New(io.Discard, 0)
+		rootAddr   = boson.MustParseHexAddress("3300")
+		clientAddr = boson.MustParseHexAddress("9ee7add8")
+		serverAddr = boson.MustParseHexAddress("9ee7add7")
+		chunkA     = mustChunk(t, "payload of the first chunk")
+		chunkB     = mustChunk(t, "payload of the second chunk")
+		served     = map[string]boson.Chunk{
+			chunkA.Address().String(): chunkA,
+			chunkB.Address().String(): chunkB,
+		}
+	)
+
+	// the remote peer: answers every request with the right chunk; the request for
+	// chunkA is answered slowly so that the two retrievals overlap in time
+	var once sync.Once
+	arrivedA := make(chan struct{})
+	peer := p2p.ProtocolSpec{
+		Name:    "retrieval",
+		Version: "1.0.0",
+		StreamSpecs: []p2p.StreamSpec{{
+			Name: "retrieval",
+			Handler: func(ctx context.Context, _ p2p.Peer, stream p2p.Stream) error {
+				w, r := protobuf.NewWriterAndReader(stream)
+				var req pb.RequestChunk
+				if err := r.ReadMsgWithContext(ctx, &req); err != nil {
+					return err
+				}
+				c, ok := served[boson.NewAddress(req.ChunkAddr).String()]
+				if !ok {
+					_ = stream.Reset()
+					return storage.ErrNotFound
+				}
+				if c.Address().Equal(chunkA.Address()) {
+					once.Do(func() { close(arrivedA) })
+					time.Sleep(500 * time.Millisecond)
+				}
+				if err := w.WriteMsgWithContext(ctx, &pb.Delivery{Data: c.Data()}); err != nil {
+					return err
+				}
+				return stream.FullClose()
+			},
+		}},
+	}
+	recorder := streamtest.New(streamtest.WithProtocols(peer), streamtest.WithBaseAddr(clientAddr))
+
+	routeTable := rmock.NewMockRouteTable()
+	clientStore := storemock.NewStorer()
+	client := retrieval.New(clientAddr, recorder, &routeTable, clientStore, true, logger, nil,
+		accmock.NewAccounting(), subscribe.NewSubPub())
+	client.Config(chunkInfoStub{})
+
+	ctx, cancel := context.WithTimeout(context.Background(), 8*time.Second)
+	defer cancel()
+	ctx = sctx.SetTargets(ctx, serverAddr.String())
+
+	type res struct {
+		want boson.Chunk
+		got  boson.Chunk
+		err  error
+	}
+	out := make(chan res, 2)
+	get := func(want boson.Chunk) {
+		got, err := client.RetrieveChunk(ctx, rootAddr, want.Address())
+		out <- res{want: want, got: got, err: err}
+	}
+
+	go get(chunkA)
+	select {
+	case <-arrivedA: // the retrieval of chunkA is now in flight
+	case <-ctx.Done():
+		t.Logf("not reproduced: the first request never reached the peer"); return
+	}
+	go get(chunkB)
+
+	for i := 0; i < 2; i++ {
+		r := <-out
+		if r.err != nil {
+			t.Logf("not reproduced: retrieve %s: %v", r.want.Address(), r.err); return
+		}
+		if !r.got.Address().Equal(r.want.Address()) || !cac.Valid(boson.NewChunk(r.want.Address(), r.got.Data())) {
+			t.Logf("REPLAY-CONFIRMED two overlapping retrievals of different chunks of one file with explicit targets: the caller asking for chunk %s was handed chunk %s, which is not a valid chunk for the requested address", r.want.Address(), r.got.Address()); return
+		}
+	}
+	t.Logf("not reproduced")
+}
+'''
+
+
+def all_plans():
+    return [build('', {}, {}), {"pkg": "pkg/retrieval", "pkgname": "retrieval_test", "test": RETRIEVE}]
+
+
 def build(unit, obl, vals):
+    if ').RetrieveChunk' in unit:
+        return {"pkg": "pkg/retrieval", "pkgname": "retrieval_test", "test": RETRIEVE}
     return {"pkg": "pkg/traversal", "pkgname": "traversal_test", "test": TEST, "mask_all_tests": False}
